@@ -64,3 +64,52 @@ package service
 //@     go: for c := range res { body += c.Str }
 //@     go: if !strings.Contains(body, `"stream"`) { confirm("first series with fingerprint 0 is written without a stream object: " + body) }
 //@   end
+
+// Metric range queries (matrix): same grouping protocol, one object per series.
+//@ func (*QueryRangeService).QueryRange$2 [C15]
+//@   requires !errReported
+//@   ensures errReported || jsDone(stream)
+//@   loop 1:
+//@     invariant 0 <= i && i <= 1 && 0 <= j && j <= 1 && grouped(stream, i, j) && !errReported
+//@     modifies stream.g_state, stream.g_kind, stream.g_depth
+//@   loop 2:
+//@     invariant 0 <= i && i <= 1 && 0 <= j && j <= 1 && grouped(stream, i, j) && !errReported
+//@     modifies stream.g_state, stream.g_kind, stream.g_depth
+
+// Instant metric queries (vector): rows are first reduced to the newest value
+// per series (nothing is written meanwhile), then one object per series.
+//@ spec fn inSeries(s *jsoniter.Stream) bool = envelope(s) && s.g_depth == 5 && s.g_state[3] == 2 && s.g_kind[4] == 1 && s.g_state[4] == 2 && s.g_kind[5] == 1
+//@ func (*QueryRangeService).QueryInstant$2 [C15]
+//@   requires !errReported
+//@   ensures errReported || jsDone(stream)
+//@   loop 1:
+//@     invariant i == 0 && inResult(stream) && stream.g_state[3] == 0 && !errReported
+//@     modifies mapof(lastValues)
+//@   loop 2:
+//@     invariant i == 0 && inResult(stream) && stream.g_state[3] == 0 && !errReported
+//@     modifies mapof(lastValues)
+//@   loop 3:
+//@     invariant i >= 0 && inResult(stream) && (i == 0 ==> stream.g_state[3] == 0) && (i > 0 ==> stream.g_state[3] == 2) && !errReported
+//@     modifies stream.g_state, stream.g_kind, stream.g_depth
+//@   loop 4:
+//@     invariant j >= 0 && inSeries(stream) && (j == 0 ==> stream.g_state[5] == 0) && (j > 0 ==> stream.g_state[5] == 2) && !errReported
+//@     modifies stream.g_state, stream.g_kind, stream.g_depth
+
+// Live tailing: one complete document {"streams":[...]} per tick, written with
+// the same grouping protocol two levels higher up.
+//@ spec fn tailEnvelope(s *jsoniter.Stream) bool = s.g_kind[0] == 0 && s.g_state[0] == 2 && s.g_kind[1] == 1 && s.g_state[1] == 2 && s.g_kind[2] == 2
+//@ spec fn tailGrouped(s *jsoniter.Stream, i int, j int) bool = tailEnvelope(s) &&
+//@        (i == 0 ==> s.g_depth == 2 && s.g_state[2] == 0) &&
+//@        (i != 0 ==> s.g_depth == 4 && s.g_state[2] == 2 && s.g_kind[3] == 1 && s.g_state[3] == 2 && s.g_kind[4] == 2 && (j == 0 ==> s.g_state[4] == 0) && (j != 0 ==> s.g_state[4] == 2))
+//@ func (*QueryRangeService).Tail$1 [C15]
+//@   requires !errReported
+//@   requires len(sqlQuery) >= 1
+//@   loop 1:
+//@     invariant stream.g_depth == 0 && stream.g_kind[0] == 0 && stream.g_state[0] == 0 && !errReported
+//@     modifies stream.g_state, stream.g_kind, stream.g_depth, from, allocated
+//@   loop 2:
+//@     invariant 0 <= i && i <= 1 && 0 <= j && j <= 1 && tailGrouped(stream, i, j) && !errReported
+//@     modifies stream.g_state, stream.g_kind, stream.g_depth, from
+//@   loop 3:
+//@     invariant 0 <= i && i <= 1 && 0 <= j && j <= 1 && tailGrouped(stream, i, j) && !errReported
+//@     modifies stream.g_state, stream.g_kind, stream.g_depth, from
